@@ -2,25 +2,27 @@ import eng_conc
 PID = "C17"
 LEAN_MODULE = "Hw.Props.C17"
 NS = "Hw.Props.C17."
-THEOREMS = [NS + t for t in """C17_refresh_validates C17_refresh_validates_history C17_load_validates
-C17_load_binding_restrict_invalid C17_valid_readers_write_free C17_readers_schedule_independent
+THEOREMS = [NS + t for t in """C17_refresh_validates C17_refresh_validates_history C17_refresh_validates_flags C17_load_validates
+C17_load_second_refresh_needed C17_valid_readers_write_free C17_readers_schedule_independent
 C17_readers_state_constant C17_unrefreshed_race_exists C17_unrefreshed_memattr_write
 C17_registry_inv C17_registry_quiescent""".split()]
 CHECK_MODULES = ["Hw.Props.C17"]
-TRUSTED = ["tools/gen_conc.py (extraction of the hwloc_components_init/fini critical sections into the instruction IR; the statements "
+TRUSTED = ["tools/gen_conc.py (extraction of the hwloc_components_init/fini critical sections into the instruction IR, of the guarded statement "
+           "sequences of hwloc_topology_refresh and of the tail of hwloc_topology_load, of the topology flag values and of the table of "
+           "all callers of the cache-(re)building functions; the statements "
            "between the reference-count test and the unlock are one opaque initReg / destroyReg instruction) and the IR semantics "
            "of lean/Hw/Io/Conc.lean (`Reg.exec`), tied to the real functions only sequentially (engine readonly, ops cinit/cfini)",
            "the footprint table `Hw.Conc.events` (which entry point touches which lazy cache) is hand-written from the C and tied to "
            "the real code by engine `readonly` on the generated topologies only; harness/consult.h decides what 'every consulting "
-           "entry point' means (31 entries, about 120 public functions)",
+           "entry point' means (35 entries, about 140 public functions)",
            "pthread_mutex_lock/unlock provide mutual exclusion and the hardware/compiler memory model gives sequential consistency "
            "to race-free programs; the observe/commit split is the model's granularity of interleaving",
            "mprotect(PROT_READ) + SIGSEGV reports every store into the copied topology (stores to memory outside the copy - "
            "static variables, user buffers, malloc - are not seen by it; statics are covered by the TSan support run only)"]
 ASSUMPTIONS = ["every function-local static environment cache has been initialised once before threads start (Warm); the cold-start "
                "same-value write race is known finding F15",
-               "no HWLOC_TOPOLOGY_FLAG_RESTRICT_TO_CPUBINDING / _MEMBINDING restrict at the end of load (C17_load_binding_restrict_invalid "
-               "proves that such a load leaves the distances caches invalid; reported as a finding)",
+               "load: with NO_DISTANCES / NO_MEMATTRS the discovery adds no distances / attribute values, so the caches that the tail of "
+               "load skips under these flags are valid when it starts (FlaggedOffValid)",
                "reader threads only call the consulting API; the caller-provided buffers are thread-private",
                "each thread of the independent-topology part calls hwloc_topology_init/destroy in pairs (one registry reference per "
                "live topology), no plugins (HWLOC_HAVE_PLUGINS off in this build)"]
@@ -47,7 +49,6 @@ def replay(path):
     import gen_tables
     gen_tables.generate_all()
     lake_build(["hwmodel"])
-    eng_conc.INCLUDE_F33 = True          # a replay of the known finding must show it
     lines = [l for l in read_lines(path) if l.strip() and not l.startswith("#")]
     traces = [l for l in lines if l.startswith(("trace ", "search ", "ir"))]
     rc = 0
